@@ -158,13 +158,14 @@ fn step(ctx: &Ctx, h: &Hist) -> Result<Option<Vec<u8>>, String> {
                 return Err(format!("PublicKey of '{}' is not the X25519 public key of its private key", name));
             }
             // ... and the tool's own unlock agrees (in-process seam, or `key extract-pub` when the seam is unavailable)
-            if kra::AVAILABLE {
+            // (quick tier: at the first level only -- one key derivation less per deeper state)
+            if kra::AVAILABLE && (h.gens.len() == 1 || ctx.rep.tier == crate::report::Tier::Thorough) {
                 match guarded(|| kra::unlock(sk_str, PASSWORDS[p as usize].as_bytes())) {
                     Ok(Some(k)) if k[..] == sk[..] => {}
                     Ok(other) => return Err(format!("key '{}' is not unlocked by the tool itself with its own password {:?} ({})", name, PASSWORDS[p as usize], if other.is_some() { "another key comes out" } else { "refused" })),
                     Err(m) => return Err(format!("unlocking key '{}' panicked: {}", name, m)),
                 }
-            } else {
+            } else if !kra::AVAILABLE {
                 let o = proc::run(&Cmd::new(&["key", "extract-pub", sk_str, "--env-pass"]).env("KESTREL_PASSWORD", PASSWORDS[p as usize]), &sc.0);
                 if !o.ok() || !String::from_utf8_lossy(&o.stdout).contains(&e.pk) {
                     return Err(format!("key '{}' is not usable with its own password {:?}: {}", name, PASSWORDS[p as usize], o.summary()));
@@ -201,8 +202,8 @@ impl Model for M {
         if s.gens.len() >= self.0.max_gens {
             return;
         }
-        // quick tier: second-level histories only from four of the initial states (all of them in thorough)
-        if self.0.max_gens == 2 && s.gens.len() == 1 && ![0usize, 3, 5, 8].contains(&(s.init as usize)) {
+        // quick tier: second-level histories only from three of the initial states (all of them in thorough)
+        if self.0.max_gens == 2 && s.gens.len() == 1 && ![0usize, 3, 8].contains(&(s.init as usize)) {
             return;
         }
         for n in 0..NAMES.len() as u8 {
